@@ -320,21 +320,21 @@ def run(ctx):
                             if k == "open":
                                 new.add(("O", False))
                             elif k == "write":
-                                new.add((("D" if ph in ("O", "D", "F", "K", "C") else ph), tested))
+                                new.add((("D" if ph in ("O", "D", "F", "K", "C", "G") else ph), tested))
                             elif k == "flush":
                                 new.add((("F" if ph == "D" else ph), tested))
                             elif k == "close":
                                 # a failing close() sets failbit only: bad() cannot see it
-                                new.add((("K" if ph in ("D", "F") else ph), tested))
+                                new.add((("K" if ph in ("D", "F", "G") else ph), tested))
                         states = new
                     if pos in exs:
                         kind, node = exs[pos]
                         status = exit_status(fn, kind, node, sv, False)
                         if status != "nonzero":
                             for ph, tested in states:
-                                if ph in ("D", "F", "K"):
+                                if ph in ("D", "F", "K", "G"):
                                     viol_o2.append((node, ph))
-                                if ph in ("O", "D", "F", "K", "C") and not tested:
+                                if ph in ("O", "D", "F", "K", "C", "G") and not tested:
                                     viol_o1.append(node)
                         ended = True
                         break
@@ -353,12 +353,15 @@ def run(ctx):
                         else:
                             # fail()/!S/good() observe failbit and badbit; bad() observes only badbit,
                             # which is enough after flush() but not after close()
-                            out = {(("C" if (ph == "F" or (ph == "K" and tk == "fail")) else ph), True) for ph, _ in states}
+                            # tested after flush() only: the data has reached the kernel, but the file is still
+                            # open - the close(2) issued by the destructor can fail (EIO, ENOSPC on NFS, quota) and its
+                            # result is discarded.  "G" = flushed and tested, not closed.
+                            out = {(("G" if ph == "F" else ("C" if (ph == "K" and tk == "fail") else ph)), True) for ph, _ in states}
                     if s == cfg.exit:
                         # implicit return 0 at the end of main
                         if not ex.get(bid):
                             for ph, tested in out:
-                                if ph in ("D", "F", "K"):
+                                if ph in ("D", "F", "K", "G"):
                                     viol_o2.append((None, ph))
                         continue
                     if s not in st_in or not out <= st_in[s]:
@@ -372,7 +375,7 @@ def run(ctx):
                 node, ph = viol_o2[0]
                 ctx.ob("R19.o2", inst + "|flush-then-test-after-last-write", False, fn.loc(node) if node else fn.loc(),
                        "exit reachable with %s %s (no %s after the last write)" % (
-                           S.name, "written but not flushed" if ph == "D" else ("closed but only bad() was tested (a failed close() sets failbit, which bad() does not report)" if ph == "K" else "flushed but not tested"),
+                           S.name, "written but not flushed" if ph == "D" else ("closed but only bad() was tested (a failed close() sets failbit, which bad() does not report)" if ph == "K" else ("flushed and tested but never closed: the close() done by the destructor can still fail and its result is discarded" if ph == "G" else "flushed but not tested")),
                            "close()/flush() + failure test" if ph == "D" else "fail()/!stream test"))
             else:
                 ctx.ob("R19.o2", inst + "|flush-then-test-after-last-write", True, site,
